@@ -809,6 +809,37 @@ def vc_rej_only_failed(fns, variants, work):
     return summarize(eng, found, {"rej_create_sites_reached": reached[0]}, work, "c13r", witness_ok=reached[0] > 0, witness_note="File::create not reached")
 
 
+def vc_rej_name_beside_file(fns, variants, work):
+    """make_rej_filename: on every path the result is made FROM the path it was given by a std::path operation that keeps the
+    directory part (with_extension / with_file_name on that very path; a PathBuf built from a bare name would drop the directory and
+    put every reject file into the working directory)."""
+    fn = find_fn(fns, r"(^|::)make_rej_filename$")
+    found, rets = [], [0]
+
+    def after_call(eng, st, bb, site, stmt, dst, callee, args, argv):
+        if dst and re.fullmatch(r"_0", dst.strip()):
+            c = strip_generics(callee)
+            keeps = re.search(r"Path::(with_extension|with_file_name)$", c) is not None
+            src = args[0].strip() if args else ""
+            st.store["ghost:ret_ok"] = z3.BoolVal(bool(keeps and re.search(r"\b_2\b|\b_1\b", src)))
+            st.store["ghost:ret_by"] = z3.BoolVal(True)
+            st.ghost = st.ghost | {"retcall:%s" % c[-40:]}
+
+    def on_return(eng, st, bb):
+        rets[0] += 1
+        okv = st.store.get("ghost:ret_ok")
+        if okv is None or z3.is_false(okv):
+            how = [g[8:] for g in st.ghost if g.startswith("retcall:")]
+            ok, _ = eng.feasible(st)
+            if ok:
+                found.append({"bb": bb, "stmt": "return", "what": "the reject file name is not derived from the patched file's own path by with_extension / with_file_name (%s): its directory part is lost or replaced"
+                              % (how[0] if how else "no such call"), "model": {}, "trace": list(st.trace[-10:])})
+
+    eng = Engine(fns, fn, variants, hooks={"after_call": after_call, "on_return": on_return})
+    eng.run()
+    return summarize(eng, found, {"returns_reached": rets[0]}, work, "c13n", witness_ok=rets[0] >= 2, witness_note="expected the two arms (with / without extension)")
+
+
 def vc_rej_pass_complete(fns, variants, work):
     """rollback_and_save_rej_files: an Ok return happens only when the stack top was looked at and is not an entry of the
     rejected patch (None, or index < rejected): no arm leaves the loop with file patches of the rejected patch unprocessed."""
